@@ -130,7 +130,11 @@ def gen(streams, tier, i):
                           "l.get", "l.set", "l.try_get", "l.delete", "l.field_to_s", "l.validate",
                           "l.validate_field", "l.get_datatype", "l.set_datatype", "str", "gfa.validate",
                           "add", "names", "l.str", "l.clone", "l.rename", "select", "to_other",
-                          "components", "linear_paths"])
+                          "components", "linear_paths", "multiply",
+                          "seg_component", "cut", "to_obj", "l.to_other", "l.diff", "l.refs"])
+        # graph rewrites on arbitrary (possibly corrupted) graphs -- merge_linear_paths, remove_dead_ends,
+        # remove_small_components, group resolution -- take no string argument and are outside C07's
+        # quantifier (texts and strings passed to the API); C14/C16/C17 cover them on their own domains
         arg = hr.choice(WEIRD_STRINGS)
         if hr.random() < 0.35 and lines:
             # an identifier-looking token from the document
@@ -290,6 +294,31 @@ def api(g, cx, op, st):
         o = cx.call("gfa.connected_components()", g.connected_components)
     elif c == "linear_paths":
         o = cx.call("gfa.linear_paths()", g.linear_paths)
+    elif c == "multiply":
+        o = cx.call("gfa.multiply(%r,%d)" % (a, op["li"] % 4), g.multiply, a, op["li"] % 4)
+    elif c == "merge":
+        o = cx.call("gfa.merge_linear_paths()", g.merge_linear_paths)
+    elif c == "remove_small":
+        o = cx.call("gfa.remove_small_components(%d)" % (op["li"] % 30), g.remove_small_components, op["li"] % 30)
+    elif c == "dead_ends":
+        o = cx.call("gfa.remove_dead_ends(%d)" % (op["li"] % 30), g.remove_dead_ends, op["li"] % 30)
+    elif c == "seg_component":
+        o = cx.call("gfa.segment_connected_component(%r)" % a, g.segment_connected_component, a)
+    elif c == "cut":
+        o = cx.call("gfa.is_cut_segment(%r)" % a, g.is_cut_segment, a)
+    elif c == "to_obj":
+        o = cx.call("gfa.to_gfa1()/to_gfa2()", lambda: (str(g.to_gfa1()), str(g.to_gfa2())))
+    elif c == "groups":
+        def f():
+            out = []
+            for p in g.paths + g.sets:
+                attr = "induced_set" if p.record_type == "U" else "captured_path"
+                try:
+                    out.append(getattr(p, attr))
+                except gfapy.Error:
+                    pass
+            return out
+        o = cx.call("groups.captured_path/induced_set", f)
     elif l is None:
         return
     elif c == "l.get":
@@ -314,6 +343,12 @@ def api(g, cx, op, st):
         o = cx.call("str(line)", str, l)
     elif c == "l.clone":
         o = cx.call("line.clone()", l.clone)
+    elif c == "l.to_other":
+        o = cx.call("line.to_gfa1_s/to_gfa2_s", lambda: (l.to_gfa1_s(), l.to_gfa2_s()))
+    elif c == "l.diff":
+        o = cx.call("line.diff/==", lambda: (l == lines[0], l.diff(lines[0]) if lines[0].record_type == l.record_type else None))
+    elif c == "l.refs":
+        o = cx.call("line.refstr/all_references", lambda: (l.refstr(), l.all_references if l.record_type != "P" else None))
     elif c == "l.rename":
         def f():
             l.name = a
